@@ -1,4 +1,4 @@
-(* C03 — integral rings, part Y: maxpy, maxpyin (see ProofsInt.v for statements and tactics) *)
+(* C03 — integral rings, part Y: maxpy (see ProofsInt.v for statements and tactics) *)
 From Coq Require Import ZArith Bool Lia List.
 From C03 Require Import Model ProofsBase ProofsInt.
 Import ListNotations.
@@ -10,14 +10,6 @@ Proof.
   unfold Maxpy_stmt, Pre; start Hc Hp sg. all: unfold maxpyZ, maxpy, neg; open_model.
   all: sq_bound Hp a b p H H0.
   all: replace (c - a * b) with (- (a * b + (p - c)) + 1 * p) by lia; rewrite Z.mod_add, mod_opp_of_mod by lia.
-  all: strip; lia.
-Qed.
-
-Lemma maxpyin_exact sb sg cb p : Maxpyin_stmt sb sg cb p.
-Proof.
-  unfold Maxpyin_stmt, Pre; start Hc Hp sg. all: unfold maxpyinZ, maxpyin, axmy, neg; open_model.
-  all: sq_bound Hp a b p H H0.
-  all: replace (r - a * b) with (- (a * b + p - r) + 1 * p) by lia; rewrite Z.mod_add, mod_opp_of_mod by lia.
   all: strip; lia.
 Qed.
 
